@@ -109,16 +109,20 @@ static int h_scalemode = 0;   /* bit0: row i of the generic concrete matrix is s
 static real_t h_concrete_value_(int i, int j, int n);
 static real_t h_concrete_value(int i, int j, int n) { real_t v = h_concrete_value_(i, j, n); if (h_scalemode & 1) for (int k = 0; k < i; k++) v *= (real_t)(1.0 / 16384.0); if (h_scalemode & 2) for (int k = 0; k < j; k++) v *= (real_t)(1.0 / 16384.0); return v; }
 static real_t h_concrete_value_(int i, int j, int n) { static const int pr[] = {3, 5, 7, 11, 13, 17, 19, 23, 29, 31, 37, 41}; int k = (i * 5 + j * 3) % 12; real_t v = (real_t)pr[k] / (real_t)(16 + ((i + 2 * j) % 7)); if ((i + j) & 1) v = -v; if (i == j) v = (real_t)(4 * n + i + 1); return v; }
+/* h_rowscramble: the rows of the (square) pattern / generic matrix are stored in scrambled order, row r of the stored matrix being row (r * s) mod n of the described one (s coprime to n):
+   the dominant entries -- hence the pivots -- are then far from the diagonal and the pivot rows of neighbouring columns are not neighbouring rows */
+static int h_rowscramble = 0;
+static int h_srcrow(int r, int m, int n) { if (!h_rowscramble || m != n || n < 3) return r; int s = 2; for (;; s++) { int a = s, b = n; while (b) { int t = a % b; a = b; b = t; } if (a == 1) break; } return (r * s) % n; }
 static void symmat_build_cols(symmat_t *S, int m, int n, h_pat_t pat, const char *pfx, unsigned symcols) {
   S->m = m; S->n = n; S->val = (elem_t *)malloc(sizeof(elem_t) * (m * n + 1)); S->rowind = (int_t *)malloc(sizeof(int_t) * (m * n + 1)); S->colptr = (int_t *)malloc(sizeof(int_t) * (n + 1));
   dense_clear(&S->D, m, n); int_t k = 0; char nm[32];
-  for (int j = 0; j < n; j++) { S->colptr[j] = k; for (int i = 0; i < m; i++) if (h_patbit(pat, m, i, j)) { snprintf(nm, sizeof nm, "%s%d_%d", pfx, i, j);
+  for (int j = 0; j < n; j++) { S->colptr[j] = k; for (int i = 0; i < m; i++) if (h_patbit(pat, m, h_srcrow(i, m, n), j)) { snprintf(nm, sizeof nm, "%s%d_%d", pfx, i, j);
         if ((symcols >> j) & 1) S->val[k] = e_sym(nm);
         else {
 #if IS_COMPLEX
-          S->val[k] = e_make(h_concrete_value(i, j, n), h_concrete_value(j, i, n) / 4);
+          S->val[k] = e_make(h_concrete_value(h_srcrow(i, m, n), j, n), h_concrete_value(j, h_srcrow(i, m, n), n) / 4);
 #else
-          S->val[k] = h_concrete_value(i, j, n);
+          S->val[k] = h_concrete_value(h_srcrow(i, m, n), j, n);
 #endif
         }
         S->rowind[k] = i; S->D.a[i][j] = S->val[k]; S->D.nz[i][j] = 1; k++; } }
